@@ -275,6 +275,8 @@ def run(ctx) -> Report:
                             if len(k) != len(obj.shape) or not all(isinstance(x, int) or hasattr(x, "id") for x in k):
                                 return NotImplemented
                             if obj.tags.get("ufl_class") == "ListTensor" and len(k) == 1 and isinstance(k[0], int):
+                                if not -len(obj.tags["ufl_operands"]) <= k[0] < len(obj.tags["ufl_operands"]):
+                                    raise LiftRaise(f"IndexError: index {k[0]} out of range for a list tensor with {len(obj.tags['ufl_operands'])} components")
                                 return obj.tags["ufl_operands"][k[0]]  # ListTensor.__getitem__ with a fixed index
                             return uflmodel.m_indexed(obj, MI(k))
 
